@@ -58,7 +58,7 @@ def run(ctx):
     M = PoolModel(P, cg)
     # "a host with a single-address reservation gets that address": whether the reserving policy applies at all is
     # decided by the policy walk, whose rules belong to C11
-    ctx.include("C11", rules=("R2", "R3"))
+    ctx.include("C11", rules=("anchor", "R2", "R3"))
     # ---------------- R1: host range bounds
     n = 0
     for b, bb, idx, s in list(find_aggs(P, "std::ops::Range")) + list(find_aggs(P, "std::ops::RangeInclusive")):
